@@ -936,8 +936,11 @@ func c14FlexLarge(c *Ctx) {
 					base = cp
 				}
 				k := []int{1, base / 8, base/4 + 1, base / 3, base/4 + base/50 + 1, base / 2, base - 1, base, base + base/3, 2*base + 1}[r.Intn(10)]
-				if k > 12000 {
-					k = 12000
+				if k > 4000 {
+					k = 4000
+				}
+				if cur > 9000 { // the extracted model recurses over its lists: keep them below ~13000 elements
+					k = 1 + k%64
 				}
 				v := make([]int64, k)
 				s2 := r.Intn(1000)
